@@ -2,6 +2,12 @@
 // oracle's slashing / reward / tally code (terms, never verdicts).  Whole packages are parsed, helper calls
 // are followed transitively, guards are read as path conditions with pure predicates expanded — stable
 // under helper / struct extraction, De Morgan-inverted guards, early returns / continues, renamings.
+//
+// Unexported functions, their parameters and locals are WILDCARDS: the stages of a vote-period end are
+// recognised by what they do (their characteristic effect, see effectOf), wherever in the call closure of the
+// exported entry point the effect sits and whatever the function around it is called.  Only exported API is
+// used as an anchor (EndBlocker, UpdateExchangeRates, SlashAndResetMissCounters, AllocateRewards, the Keeper's
+// collections, the staking / distribution keeper methods, types.*).
 package main
 
 import (
@@ -16,10 +22,10 @@ import (
 // tallyForm: the two band tests and the halving of the band, anywhere in the call closure of Tally.
 func tallyForm(p *pkg, fd *ast.FuncDecl) (lowerOK bool, upper string, halved bool) {
 	upper = "TallyOther"
-	p.inspectClosure(fd, func(_ *ast.FuncDecl, n ast.Node) bool {
+	p.inspectClosure(fd, func(o *ast.FuncDecl, n ast.Node) bool {
 		if c, ok := n.(*ast.CallExpr); ok {
 			if recv, name, args, ok := callSel(c); ok && name == "QuoInt64" && len(args) == 1 && Nospace(args[0]) == "2" &&
-				strings.HasSuffix(strings.ToLower(Nospace(recv)), "band") {
+				(isParamOf(o, recv) || strings.HasSuffix(strings.ToLower(Nospace(recv)), "band")) {
 				halved = true
 			}
 		}
@@ -77,7 +83,6 @@ func gateOf(p *pkg, fd *ast.FuncDecl, name string) []string {
 	}
 	return out
 }
-
 
 // slashGuard: the literals on the path to the Slash call, classified.
 func slashGuard(p *pkg, fd *ast.FuncDecl) (atoms []string) {
@@ -148,6 +153,201 @@ func callOrder(p *pkg, fd *ast.FuncDecl, names map[string]bool) []string {
 	return seq
 }
 
+// isParamOf: e is an identifier naming a parameter of fd.
+func isParamOf(fd *ast.FuncDecl, e ast.Expr) bool {
+	id, ok := strip(e).(*ast.Ident)
+	if !ok || fd == nil {
+		return false
+	}
+	for _, pn := range paramNames(fd) {
+		if pn == id.Name {
+			return true
+		}
+	}
+	return false
+}
+
+// ---------------------------------------------------------------- stages of a vote-period end, by effect
+//
+// The four stages the property talks about, each named after the function that carries it in the tree the model
+// was written from (the labels are role names, not look-up keys):
+//
+//	Tally                 — a validator's performance is updated from a vote: `….RewardWeight += …`, `….MissCount++`,
+//	                        or the spread is computed (`….StandardDeviation(…)`)
+//	incrementMissCounters — the MissCounters store is written (`….MissCounters.Insert(…)`)
+//	rewardWinners         — rewards are credited (`….AllocateTokensToValidator(…)`)
+//	clearVotesAndPrevotes — the Votes store is emptied (`….Votes.Delete(…)`)
+func effectOf(n ast.Node) string {
+	switch x := n.(type) {
+	case *ast.CallExpr:
+		f := Nospace(x.Fun)
+		switch {
+		case strings.HasSuffix(f, ".MissCounters.Insert"):
+			return "incrementMissCounters"
+		case strings.HasSuffix(f, ".AllocateTokensToValidator"):
+			return "rewardWinners"
+		case strings.HasSuffix(f, ".Votes.Delete"):
+			return "clearVotesAndPrevotes"
+		case strings.HasSuffix(f, ".StandardDeviation"):
+			return "Tally"
+		}
+	case *ast.IncDecStmt:
+		if x.Tok == token.INC && strings.HasSuffix(Nospace(x.X), ".MissCount") {
+			return "Tally"
+		}
+	case *ast.AssignStmt:
+		if x.Tok == token.ADD_ASSIGN && len(x.Lhs) == 1 {
+			if l := Nospace(x.Lhs[0]); strings.HasSuffix(l, ".RewardWeight") || strings.HasSuffix(l, ".MissCount") {
+				return "Tally"
+			}
+		}
+	}
+	return ""
+}
+
+// hop: one link of the way from the entry point to an effect: the node (a call of a package function, or the
+// effect itself) and the function whose body contains it.
+type hop struct {
+	owner *ast.FuncDecl
+	node  ast.Node
+}
+
+// effects walks fd in source order with the functions of the package inlined (a function on the current call
+// stack is not entered again) and reports every effect with the chain of calls that leads to it.
+func (p *pkg) effects(fd *ast.FuncDecl, visit func(role string, chain []hop)) {
+	var walk func(fd *ast.FuncDecl, chain []hop, stack map[*ast.FuncDecl]bool)
+	walk = func(fd *ast.FuncDecl, chain []hop, stack map[*ast.FuncDecl]bool) {
+		ast.Inspect(fd.Body, func(n ast.Node) bool {
+			if n == nil {
+				return true
+			}
+			if r := effectOf(n); r != "" {
+				visit(r, append(append([]hop{}, chain...), hop{fd, n}))
+			}
+			if ce, ok := n.(*ast.CallExpr); ok {
+				if d := p.resolve(ce); d != nil && !stack[d] && len(chain) < 6 {
+					stack[d] = true
+					walk(d, append(append([]hop{}, chain...), hop{fd, ce}), stack)
+					delete(stack, d)
+				}
+			}
+			return true
+		})
+	}
+	walk(fd, nil, map[*ast.FuncDecl]bool{fd: true})
+}
+
+// effectOrder: the stages in the order in which their effects occur in the source (consecutive repetitions of
+// one stage collapsed).
+func effectOrder(p *pkg, fd *ast.FuncDecl) []string {
+	var seq []string
+	p.effects(fd, func(role string, _ []hop) {
+		if len(seq) == 0 || seq[len(seq)-1] != role {
+			seq = append(seq, role)
+		}
+	})
+	return seq
+}
+
+// rolesIn: the stages whose effects occur in the call closure of fd.
+func rolesIn(p *pkg, fd *ast.FuncDecl) map[string]bool {
+	m := map[string]bool{}
+	p.inspectClosure(fd, func(_ *ast.FuncDecl, n ast.Node) bool {
+		if n != nil {
+			if r := effectOf(n); r != "" {
+				m[r] = true
+			}
+		}
+		return true
+	})
+	return m
+}
+
+// stageOf: the function that IS the stage — the outermost function on the way from the entry point to the first
+// effect of this stage whose call closure has effects of this stage only (so `incrementMissCounters` stays the
+// stage when the store write moves into a helper of it, and a wrapper around several stages is not a stage) — and
+// the calls that lead to it: chain[:cut] are the calls down to and including the call of the stage function.
+// When there is no such function (the effect sits in the entry point or in a function shared with another
+// stage) fn is the function holding the effect and cut = len(chain).
+func stageOf(p *pkg, fd *ast.FuncDecl, role string) (fn *ast.FuncDecl, chain []hop, cut int) {
+	p.effects(fd, func(r string, c []hop) {
+		if r == role && chain == nil {
+			chain = c
+		}
+	})
+	if chain == nil {
+		return nil, nil, 0
+	}
+	for i := 1; i < len(chain); i++ {
+		if rs := rolesIn(p, chain[i].owner); len(rs) == 1 && rs[role] {
+			return chain[i].owner, chain, i
+		}
+	}
+	return chain[len(chain)-1].owner, chain, len(chain)
+}
+
+// stageGuards: the non-error conditions under which the stage is reached from the entry point: the path
+// conditions of every call on the way (in the function that makes the call).  The conditions inside the stage
+// function (who gets a miss, who is paid) are the stage's business and belong to the model.
+func stageGuards(p *pkg, chain []hop, cut int) int {
+	n := 0
+	for _, h := range chain[:cut] {
+		for _, l := range p.literals(pathConds(h.owner.Body, h.node)) {
+			if !isErrCond(l.e) {
+				n++
+			}
+		}
+	}
+	return n
+}
+
+// tallyRoot: when no function is called Tally — the deepest function on the way to the first tally effect whose
+// call closure both computes the spread and credits reward weight.
+func tallyRoot(p *pkg, root *ast.FuncDecl) *ast.FuncDecl {
+	owner, chain, _ := stageOf(p, root, "Tally")
+	for i := len(chain) - 1; i >= 1; i-- {
+		d := chain[i].owner
+		sd, rw := false, false
+		p.inspectClosure(d, func(_ *ast.FuncDecl, n ast.Node) bool {
+			switch x := n.(type) {
+			case *ast.CallExpr:
+				sd = sd || strings.HasSuffix(Nospace(x.Fun), ".StandardDeviation")
+			case *ast.AssignStmt:
+				rw = rw || (x.Tok == token.ADD_ASSIGN && len(x.Lhs) == 1 && strings.HasSuffix(Nospace(x.Lhs[0]), ".RewardWeight"))
+			}
+			return true
+		})
+		if sd && rw {
+			return d
+		}
+	}
+	return owner
+}
+
+// isTotalWeight: e denotes the total reward weight — a call of ….TotalRewardWeight(), a local defined by one, or a
+// parameter of the (helper) function o that the value is handed to.
+func isTotalWeight(o *ast.FuncDecl, e ast.Expr) bool {
+	isCall := func(e ast.Expr) bool {
+		_, nm, args, ok := callSel(e)
+		return ok && nm == "TotalRewardWeight" && len(args) == 0
+	}
+	e = strip(e)
+	if c, ok := e.(*ast.CallExpr); ok && isConv(c.Fun) && len(c.Args) == 1 {
+		e = strip(c.Args[0])
+	}
+	if isCall(e) {
+		return true
+	}
+	id, ok := e.(*ast.Ident)
+	if !ok {
+		return false
+	}
+	if d, ok := simpleDefs(o.Body)[id.Name]; ok {
+		return isCall(d)
+	}
+	return isParamOf(o, id)
+}
+
 func main() {
 	repo := Repo()
 	Header(repo)
@@ -213,7 +413,10 @@ func main() {
 				return true
 			}
 			b, ok := strip(c.Args[0]).(*ast.BinaryExpr)
-			if !ok || b.Op != token.SUB || !strings.Contains(strings.ToLower(Nospace(b)), "miss") {
+			if !ok || b.Op != token.SUB { // periods − misses: a difference of two variables under a cast
+				return true
+			}
+			if _, lit := strip(b.Y).(*ast.BasicLit); lit {
 				return true
 			}
 			switch f := Nospace(c.Fun); {
@@ -259,12 +462,18 @@ func main() {
 			perPeriod = "DivQuoRaw"
 		}
 	}
-	// rewardWinners: share = NewDec(weight).QuoInt64(total), truncated
+	// the stages of a vote-period end, found by their effects from the exported entry point
+	root := kp.fn("UpdateExchangeRates", "Keeper")
+	// reward stage: share = NewDec(weight).QuoInt64(total reward weight), truncated
 	shareNormalised, shareTruncated := false, false
-	if fd := kp.fn("rewardWinners"); fd != nil {
-		kp.inspectClosure(fd, func(_ *ast.FuncDecl, n ast.Node) bool {
+	var rewardFn *ast.FuncDecl
+	if root != nil {
+		rewardFn, _, _ = stageOf(kp, root, "rewardWinners")
+	}
+	if fd := rewardFn; fd != nil {
+		kp.inspectClosure(fd, func(o *ast.FuncDecl, n ast.Node) bool {
 			if recv, name, args, ok := callSelNode(n); ok {
-				if name == "QuoInt64" && len(args) == 1 && strings.Contains(strings.ToLower(Nospace(args[0])), "total") {
+				if name == "QuoInt64" && len(args) == 1 && isTotalWeight(o, args[0]) {
 					if c, ok := strip(recv).(*ast.CallExpr); ok && strings.HasSuffix(Nospace(c.Fun), "NewDec") {
 						shareNormalised = true
 					}
@@ -279,19 +488,21 @@ func main() {
 	// Tally
 	lowerOK, upper, halved := false, "TallyOther", false
 	abstain := false
-	if fd := kp.fn("Tally"); fd != nil {
+	tallyFn := kp.fn("Tally")
+	if tallyFn == nil && root != nil {
+		tallyFn = tallyRoot(kp, root)
+	}
+	if fd := tallyFn; fd != nil {
 		lowerOK, upper, halved = tallyForm(kp, fd)
-		for _, d := range kp.closure(fd) {
-			for name, rhs := range simpleDefs(d.Body) {
-				if strings.Contains(strings.ToLower(name), "abstain") {
-					if u, ok := strip(rhs).(*ast.UnaryExpr); ok && u.Op == token.NOT {
-						if recv, nm, _, ok := callSel(u.X); ok && nm == "IsPositive" && strings.HasSuffix(Nospace(recv), "ExchangeRate") {
-							abstain = true
-						}
-					}
+		// an abstention is `!rate.IsPositive()`, whatever the result is called and wherever it is tested
+		kp.inspectClosure(fd, func(_ *ast.FuncDecl, n ast.Node) bool {
+			if u, ok := n.(*ast.UnaryExpr); ok && u.Op == token.NOT {
+				if recv, nm, args, ok := callSel(u.X); ok && nm == "IsPositive" && len(args) == 0 && strings.HasSuffix(Nospace(recv), "ExchangeRate") {
+					abstain = true
 				}
 			}
-		}
+			return true
+		})
 	}
 	// EndBlocker gates
 	updGate, slashGate := []string{"missing"}, []string{"missing"}
@@ -304,21 +515,17 @@ func main() {
 	// UpdateExchangeRates: nothing guards the calls that count misses, pay rewards and clear the votes
 	guards := 99
 	var updOrder []string
-	if fd := kp.fn("UpdateExchangeRates", "Keeper"); fd != nil {
+	if fd := root; fd != nil {
 		guards = 0
-		for _, nm := range []string{"incrementMissCounters", "rewardWinners", "clearVotesAndPrevotes"} {
-			owner, call := kp.findCall(fd, nm, nil)
-			if call == nil {
+		for _, role := range []string{"incrementMissCounters", "rewardWinners", "clearVotesAndPrevotes"} {
+			_, chain, cut := stageOf(kp, fd, role)
+			if chain == nil {
 				guards += 50
 				continue
 			}
-			for _, l := range kp.literals(pathConds(owner.Body, call)) {
-				if !isErrCond(l.e) {
-					guards++
-				}
-			}
+			guards += stageGuards(kp, chain, cut)
 		}
-		updOrder = callOrder(kp, fd, map[string]bool{"Tally": true, "incrementMissCounters": true, "rewardWinners": true, "clearVotesAndPrevotes": true})
+		updOrder = effectOrder(kp, fd)
 	}
 
 	fmt.Println("Require Import Nib.C10.Cfg Nib.C12.Cfg.")
